@@ -45,6 +45,25 @@
 (* differ) and spec-computed input classes (`flags`) used to tag           *)
 (* disagreements.                                                          *)
 (*                                                                         *)
+(* Terminators that are not the last record (Mode "scanz", cfg CFI_scanz):   *)
+(* LSB 10.6.1 is of two minds.  "The number of records present shall be    *)
+(* determined by size of the section as contained in the section header"   *)
+(* (so every record up to the section size is an entry: what binutils'     *)
+(* readelf and this library do, reporting each zero length word as a ZERO  *)
+(* entry and going on), but 10.6.1.1, field Length: "If Length contains    *)
+(* the value 0, then this CIE shall be considered a terminator and         *)
+(* processing shall end" (so a reader that reports the entries up to and   *)
+(* including the FIRST terminator follows the letter of the LSB; GNU ld    *)
+(* likewise treats records after a terminator as an error in .eh_frame).   *)
+(* Records after a terminator are therefore outside what the standard      *)
+(* fixes, and the expectation is SET-VALUED: the reported entries are      *)
+(* either all records in section order (reader machine Scan) or the        *)
+(* records up to and including the first terminator (reader machine        *)
+(* ScanLsb); `term` carries the length of that prefix.  Whatever IS        *)
+(* reported must be right field for field (offsets after a 4-byte          *)
+(* terminator, FDE -> CIE links across a terminator, tables).  TLC checks  *)
+(* TerminatorPrefix: ScanLsb(Enc(sec)) is that prefix of the view.         *)
+(*                                                                         *)
 (* Not asserted (the standards do not fix them): the key under which 'S'   *)
 (* appears in augmentation_dict; the personality pointer value under pcrel *)
 (* (the library reports the raw value); DW_CFA_set_loc under a non-absptr  *)
@@ -61,7 +80,7 @@
 (***************************************************************************)
 EXTENDS Bytes, TLC, Json, CSV, IOUtils
 
-CONSTANTS Mode,        \* "scan" | "prog" | "sim"
+CONSTANTS Mode,        \* "scan" | "scanz" | "prog" | "sim"
           Pars,        \* set of section parameter records (scan) / the one used by prog
           MaxEnts,     \* scan: entries per section
           Letters,     \* prog/sim: instruction alphabet of the FDE program
@@ -582,6 +601,17 @@ RECURSIVE ScanFrom(_, _, _)
 ScanFrom(bs, off, p) == IF off >= Len(bs) THEN <<>>
                         ELSE LET e == ReadEntry(bs, off, p) IN <<e>> \o ScanFrom(bs, e.end, p)
 Scan(bs, p) == ScanFrom(bs, 0, p)
+\* the other admissible reading of LSB 10.6.1.1 ("processing shall end"): stop after the first terminator
+RECURSIVE ScanLsbFrom(_, _, _)
+ScanLsbFrom(bs, off, p) == IF off >= Len(bs) THEN <<>>
+                           ELSE LET e == ReadEntry(bs, off, p) IN
+                                IF e.k = "ZERO" THEN <<e>> ELSE <<e>> \o ScanLsbFrom(bs, e.end, p)
+ScanLsb(bs, p) == ScanLsbFrom(bs, 0, p)
+Zeros(s) == {i \in 1..Len(s) : s[i].k = "ZERO"}
+\* number of records up to and including the first terminator (all of them when there is none)
+FirstTerm(s) == IF Zeros(s) = {} THEN Len(s) ELSE Min(Zeros(s))
+\* a terminator that is not the last record
+MidTerm(s) == Zeros(s) \ {Len(s)} # {}
 DropCursor(e) == [f \in (DOMAIN e) \ {"stop", "end"} |-> e[f]]
 
 (* ---------------------------------------------------------------------- *)
@@ -647,6 +677,13 @@ EhCiesFirst(p) ==
         EhCie(p, 1, <<cz, cR, cL, cP>>, 11, 3, 0, CdA, BundleC1, 5),
         EhCie(p, 1, <<cz, cS, cR>>, 16, 0, 0, CdA, BundleC2, 0)}
 EhCiesMore(p) == {EhCie(p, 1, <<cz, cP, cL, cR>>, 0, 27, 0, CdB, <<>>, 3)}
+\* scanz mode: few record shapes (their variety is scan mode's business), any arrangement of terminators
+EhCiesZFirst(p) == {EhCie(p, 1, <<cz, cR>>, 27, 0, 0, CdA, BundleC1, 0),
+                    EhCie(p, 1, <<cz, cP, cL, cR>>, 27, 27, 27, CdB, BundleC2, 3),
+                    EhCie(p, 1, <<>>, 0, 0, 0, CdA, BundleC1, 0)}
+EhCiesZMore(p) == {EhCie(p, 1, <<cz, cR>>, 27, 0, 0, CdB, <<>>, 1)}
+ScanParsZ == {Par("eh", TRUE, 32, 8, Addr400000, FALSE), Par("eh", TRUE, 32, 4, Addr0, FALSE),
+              Par("eh", FALSE, 32, 8, Addr400000, FALSE)}
 DebugCies(p) == {Cie(1, <<>>, 1, -8, 16, 0, 0, 0, N(0), BundleC1, 0), Cie(3, <<>>, 4, -128, 200, 0, 0, 0, N(0), BundleC2, 3),
                  Cie(4, <<>>, 1, -8, 16, 0, 0, 0, N(0), <<>>, 0), Cie(4, <<>>, 4, -4, 200, 0, 0, 0, N(0), BundleC1, 1)}
 HiLoc(p) == IF p.asz = 4 THEN W(<<0, 240, 255, 255>>) ELSE W(<<0, 16, 0, 0, 255, 127, 0, 0>>)
@@ -732,6 +769,7 @@ NoCafDaf == {}
 (* of one FDE one instruction at a time, the interpreter state `ist`       *)
 (* following it step by step (Exec).                                       *)
 (* ---------------------------------------------------------------------- *)
+Scanning == Mode \in {"scan", "scanz"}
 NoIst == [st |-> St0(Addr0), rows |-> <<>>, ctx |-> Ctx(1, 1, {}, FALSE, FALSE)]
 ProgCie(p, cp, cd) == IF p.sk = "debug" THEN Cie(3, <<>>, cd[1], cd[2], 16, 0, 0, 0, N(0), cp, 0)
                       ELSE Cie(1, <<cz, cR>>, cd[1], cd[2], 16, 0, 0, 0, N(0), cp, 0)
@@ -743,17 +781,20 @@ ProgInit(p, cp, cd) ==
   /\ ist = [st |-> FdeSt0(cs, DTrunc(ProgLoc(p).d, 8)), rows |-> <<>>, ctx |-> Ctx(cd[1], cd[2], cs.rules, TRUE, FALSE)]
 
 Init == /\ par \in Pars
-        /\ IF Mode = "scan" THEN sec = <<>> /\ ist = NoIst
+        /\ IF Scanning THEN sec = <<>> /\ ist = NoIst
            ELSE \E cp \in CieProgs, cd \in CafDaf : ProgInit(par, cp, cd)
         /\ dv = IF Mode = "sim" THEN NotYet ELSE Derive(par, sec)
 
-Open == IF sec = <<>> THEN TRUE ELSE sec[Len(sec)].k # "ZERO"
+\* scan: a terminator closes the section; scanz: records (and further terminators) may follow one, and a
+\* terminator may come first
+Open == IF Mode = "scanz" \/ sec = <<>> THEN TRUE ELSE sec[Len(sec)].k # "ZERO"
 CieIxs == {i \in 1..Len(sec) : sec[i].k = "CIE"}
-AddCIE(c) == /\ Mode = "scan" /\ Len(sec) < MaxEnts /\ Open
+AddCIE(c) == /\ Scanning /\ Len(sec) < MaxEnts /\ Open
              /\ sec' = Append(sec, c) /\ dv' = Derive(par, sec') /\ UNCHANGED <<par, ist>>
-AddFDE(f) == /\ Mode = "scan" /\ Len(sec) < MaxEnts /\ Open
+AddFDE(f) == /\ Scanning /\ Len(sec) < MaxEnts /\ Open
              /\ sec' = Append(sec, f) /\ dv' = Derive(par, sec') /\ UNCHANGED <<par, ist>>
-AddZero == /\ Mode = "scan" /\ par.sk = "eh" /\ Len(sec) >= 1 /\ Len(sec) <= MaxEnts /\ Open
+AddZero == /\ Scanning /\ par.sk = "eh" /\ Open
+           /\ IF Mode = "scan" THEN Len(sec) >= 1 /\ Len(sec) <= MaxEnts ELSE Len(sec) < MaxEnts
            /\ sec' = Append(sec, Zero) /\ dv' = Derive(par, sec') /\ UNCHANGED <<par, ist>>
 AppendIns(l) == /\ Mode \in {"prog", "sim"} /\ Len(sec[2].ins) < MaxProg
                 /\ (Mode = "sim" /\ Len(sec[2].ins) = MaxProg - 1) => l.op = "DW_CFA_nop"
@@ -767,7 +808,9 @@ AppendIns(l) == /\ Mode \in {"prog", "sim"} /\ Len(sec[2].ins) < MaxProg
 SimLetters == IF Mode = "sim" THEN Letters \cup {I("DW_CFA_nop", <<>>)} ELSE Letters
 
 Next ==
-  \/ \E c \in (IF par.sk = "debug" THEN DebugCies(par) ELSE IF CieIxs = {} THEN EhCiesFirst(par) ELSE EhCiesMore(par)) : AddCIE(c)
+  \/ \E c \in (IF par.sk = "debug" THEN DebugCies(par)
+               ELSE IF Mode = "scanz" THEN (IF CieIxs = {} THEN EhCiesZFirst(par) ELSE EhCiesZMore(par))
+               ELSE IF CieIxs = {} THEN EhCiesFirst(par) ELSE EhCiesMore(par)) : AddCIE(c)
   \/ /\ par.sk = "debug"
      /\ \E ci \in 1..MaxEnts, cls \in {"lo", "hi"} :
            /\ ci # Len(sec) + 1 /\ (ci <= Len(sec) => sec[ci].k = "CIE")
@@ -799,6 +842,7 @@ Flags(p, s) ==
   \cup (IF \E i \in 1..Len(s) : s[i].k # "ZERO" /\ LET fs == FinalSt(s, i) IN fs.cfa.k = "expr" /\ fs.rules = {}
         THEN {"cfa_expression_only"} ELSE {})
   \cup (IF \E i \in 1..Len(s) : s[i].k # "ZERO" /\ HasOp(s[i], {"DW_CFA_def_cfa_sf"}) THEN {"def_cfa_sf"} ELSE {})
+  \cup (IF MidTerm(s) THEN {"mid_terminator"} ELSE {})
 Case ==
   LET bs == dv.bs
       vs == dv.vs
@@ -807,8 +851,12 @@ Case ==
       alt == IF "def_cfa_sf" \in fl THEN ViewTables(par, sec, vs, TRUE) ELSE <<>>
   IN [m |-> Mode, sk |-> par.sk, le |-> par.le, fmt |-> par.fmt, asz |-> par.asz, addr |-> W(par.addr),
       bytes |-> bs, ents |-> [i \in 1..Len(vs) |-> EntJ(vs[i])], tabs |-> tabs,
-      alt |-> IF alt = tabs THEN <<>> ELSE alt, flags |-> fl]
-Emit == (Good /\ (Mode = "sim" => Len(sec[2].ins) = MaxProg)) => CSVWrite("%1$s", <<ToJson(Case)>>, IOEnv.OUT)
+      alt |-> IF alt = tabs THEN <<>> ELSE alt, flags |-> fl,
+      \* set-valued expectation (module header): 0, or the number of records up to and including the first
+      \* terminator when records follow it - a reader may report exactly that prefix instead of all of `ents`
+      term |-> IF MidTerm(sec) THEN FirstTerm(sec) ELSE 0]
+\* scanz emits only what scan mode does not reach
+Emit == (Good /\ (Mode = "sim" => Len(sec[2].ins) = MaxProg) /\ (Mode = "scanz" => MidTerm(sec))) => CSVWrite("%1$s", <<ToJson(Case)>>, IOEnv.OUT)
 
 (* ---------------------------------------------------------------------- *)
 (* Invariants.  The named properties take the shared intermediate values   *)
@@ -832,6 +880,14 @@ FDELinkedToDesignatedCIE(o, bs, sc) ==
      /\ sc[i].cieoff = o[sec[i].cie]
      /\ ReadEntry(bs, sc[i].cieoff, par).k = "CIE"
      /\ DropCursor(ParseCIE(bs, sc[i].cieoff, par)) = dv.vs[sec[i].cie]
+\* the reader that ends processing at the first terminator reports exactly the view's records up to and
+\* including that terminator; every FDE among them designates a CIE among them
+TerminatorPrefix(vs, bs) ==
+  LET sl == ScanLsb(bs, par)   n == FirstTerm(sec) IN
+  /\ Len(sl) = n
+  /\ \A i \in 1..n : DropCursor(sl[i]) = vs[i]
+  /\ \A i \in 1..n : sec[i].k = "FDE" => sec[i].cie < n
+  /\ (Zeros(sec) # {} => sl[n].k = "ZERO" /\ \A i \in 1..(n - 1) : sl[i].k # "ZERO")
 \* Dec(Enc(instrs)) = instrs, and the cursor stops exactly at the entry end
 SplitExact(sc) ==
   \A i \in 1..Len(sec) : sec[i].k # "ZERO" =>
@@ -876,6 +932,7 @@ ScanInvariants ==
           /\ Named("EntriesInOrder", EntriesInOrder(o, bs, sc))
           /\ Named("FDELinkedToDesignatedCIE", FDELinkedToDesignatedCIE(o, bs, sc))
           /\ Named("SplitExact", SplitExact(sc))
+          /\ Named("TerminatorPrefix", par.sk = "eh" => TerminatorPrefix(vs, bs))
 InterpInvariants ==
   Good => /\ \A pr \in Progs(dv.vs) :
                LET ss == StatesFrom(pr[1], 1, pr[2], pr[3]) IN
